@@ -20,6 +20,7 @@ MONITORS = {
     'c01': Mon.C01Graph, 'end': Mon.EndState,
     'c03': Mon2.C03Progress, 'c04': Mon2.C04Runahead, 'c05': Mon2.C05Queues,
     'c11': Mon2.C11Retention, 'c31': Mon2.C31Sequential,
+    'rsnap': Mon2.RestartSnap,
 }
 
 
@@ -208,6 +209,16 @@ def run_case(ctx, tag: str, case: dict, phase_list: List[dict],
                                 ctx.count(f'{name}.{k}', val)
             for k, val in (res.get('counts') or {}).items():
                 ctx.count(f'ev.{k}', val)
+        try:
+            with open(os.path.join(home, 'world.json')) as f:
+                w = json.load(f)
+            results[-1]['world_jobs'] = {
+                k: {'state': j['state'], 'emitted': j['emitted'],
+                    'launches': j['launch_count']}
+                for k, j in w['jobs'].items()}
+            results[-1]['launch_log'] = w['launch_log']
+        except (OSError, ValueError):
+            pass
         return results
     finally:
         if not keep_home:
